@@ -11,6 +11,7 @@ import traceback
 from catlib import *
 import bulk
 import props
+import repotests
 
 EVID = os.environ.get("VERIF_EVID_DIR") or os.path.join(VERIF, "evidence")
 REPLAYS = os.path.join(os.path.dirname(os.environ["VERIF_EVID_DIR"]), "replays") if os.environ.get("VERIF_EVID_DIR") else os.path.join(VERIF, "replays")
@@ -199,7 +200,22 @@ def check_property(pid, tier, seed):
             sid += len(lst)
             scenarios.extend(lst)
         meta = {s.sid: s.meta for s in scenarios}
+        # the repository's own test programs, recorded through harness/catrec.c, are validated by the same trace specification (in parallel)
+        import threading
+        rt_box = {}
+
+        def rt_work():
+            try:
+                rt_box["r"] = repotests.stage(pid, tier, work)
+            except Exception as e:      # a machinery failure of this stage is reported after the main stage
+                rt_box["e"] = e
+        rt_thread = threading.Thread(target=rt_work)
+        rt_thread.start()
         batches = bulk.run_batches(scenarios, exes, os.path.join(work, "w"), batch=spec.get("batch", 25), module="CatTrace", keep=True)
+        rt_thread.join()
+        if "e" in rt_box:
+            raise MachineryError("repository-test stage failed: %s" % rt_box["e"])
+        rt = rt_box["r"]
         agg = {"steps": 0, "skipped": 0, "scenarios": 0, "txns": 0, "units": 0, "evs": 0, "uncl": 0, "lostend": 0}
         drift, bads, crashes = [], [], 0
         tlc_states = tlc_trans = 0
@@ -218,6 +234,20 @@ def check_property(pid, tier, seed):
                 drift.append(d)
             for b in r["mon"]["bad"]:
                 b["scn"] = j["scn"]
+                bads.append(b)
+        rt_steps = rt_scen = 0
+        for r in rt["results"]:
+            rt_steps += r["impl"]["steps"]
+            rt_scen += r["impl"]["scenarios"]
+            for k in ("txns", "units", "evs", "uncl", "lostend"):
+                agg[k] += r["mon"][k]
+            tlc_trans += r["_tlc_states"][0]
+            tlc_states += r["_tlc_states"][1]
+            for d in r["impl"]["drift"]:
+                d["scn"] = "repotest:" + repotests.test_of_sid(rt["recs"], d["sid"])
+                drift.append(d)
+            for b in r["mon"]["bad"]:
+                b["scn"] = "repotest:" + repotests.test_of_sid(rt["recs"], b["sid"])
                 bads.append(b)
         if pid in ("C12", "C08"):
             bad_sids = {(b["scn"], b["sid"]) for b in bads}
@@ -245,6 +275,20 @@ def check_property(pid, tier, seed):
             if key in seen_sid:
                 continue
             seen_sid.add(key)
+            if b["scn"].startswith("repotest:"):
+                name = b["scn"][9:]
+                fp = fingerprint(b)
+                hit = [k for k in known if k["p"] == pid and k["fp"] == fp]
+                if hit:
+                    known_hits.append((hit[0], b))
+                    continue
+                again = [repotests.rerun_one(name, work, str(i)) for i in range(2)]
+                if not all(a and any(has_tag(x, pid) for x in a["mon"]["bad"]) for a in again):
+                    raise MachineryError("violation of %s in repository test %s did not reproduce: %s" % (pid, name, json.dumps(b)[:400]))
+                path = os.path.join(REPLAYS, "%s-%d-%s.test" % (pid, seed, name))
+                open(path, "w").write("repotest %s\n# %s\n" % (name, json.dumps(b)[:1000]))
+                violations.append((path, b))
+                continue
             text = extract_scenario(b["scn"], b["sid"])
             if "ref_sid" in b:
                 text = extract_scenario(b["ref_scn"], b["ref_sid"]) + text
@@ -278,7 +322,7 @@ def check_property(pid, tier, seed):
             "coverage": {
                 "states": sum(r["distinct"] for r in mc_runs) + tlc_states,
                 "transitions": sum(r["generated"] for r in mc_runs) + tlc_trans,
-                "traces_validated_against_impl": agg["scenarios"],
+                "traces_validated_against_impl": agg["scenarios"] + rt_scen,
                 "samples": samples,
                 "evaluations": agg["scenarios"] + sum(r.get("evaluations", 0) for r in mc_runs),
                 "distinct_nontrivial": len({json.dumps(meta[s].get("sig", s), sort_keys=True, default=str) for s in meta}) if meta else 0,
@@ -295,6 +339,8 @@ def check_property(pid, tier, seed):
                 "monitor_unclassified": agg["uncl"],
                 "monitor_lost_at_end": agg["lostend"],
                 "families": fam_counts,
+                "repository_tests_recorded": rt["tests"], "repository_tests_not_recorded": rt.get("not_recorded", []),
+                "repository_test_steps_validated": rt_steps, "repository_test_scenarios": rt_scen,
                 "harness_crashes": crashes,
                 "violations_of_other_properties_seen": sorted({b["p"] for b in others}),
                 "step_grain": not noproj,
@@ -322,6 +368,14 @@ def check_property(pid, tier, seed):
 def replay(pid, path):
     work = scratch_dir("replay-")
     try:
+        if path.endswith(".test"):
+            name = open(path).read().split()[1]
+            res = repotests.rerun_one(name, work)
+            print(json.dumps({"bad": res["mon"]["bad"], "drift": res["impl"]["drift"][:2]}, indent=1)[:4000])
+            if any(has_tag(b, pid) for b in res["mon"]["bad"]):
+                print("VIOLATION property=%s replay=%s" % (pid, path))
+                return 1
+            return 0
         exes = build_harness(os.path.join(work, "bin"))
         exes.pop("noproj", None)
         res = run_scenario_file(exes, path, work)
